@@ -1,6 +1,7 @@
 """C04 — forwarded line = rewritten name + untouched value/timestamp; buffers isolated"""
 from . import tablegen as tg, gen
 from .c01 import classify, nontrivial
+from . import common
 
 LEVEL_TEXT = ("Lean theorems Crng.Props.C04.final_shape, literal_first / literal_absent / literal_max_zero / not_clause_skips over the model of "
               "Table.Dispatch and rewriter.RW.Do (bytes.Replace semantics). Regenerated obligations: Dispatch uses its parameter only for len() and "
@@ -74,7 +75,7 @@ def run(ctx):
     ctx.prepare()
     ctx.lean(["Crng.Props.C04"], ["Crng.Props.C04.final_shape", "Crng.Props.C04.literal_first", "Crng.Props.C04.literal_absent",
                                   "Crng.Props.C04.literal_max_zero", "Crng.Props.C04.not_clause_skips", "Crng.Props.C04.same_copy"],
-             ties=["Crng.Tie.C04"])
+             ties=["Crng.Tie.C04", common.CODE_TABLE])
     # literal rewriter on its own (bytes.Replace semantics, all max values)
     rnd = ctx.rng("rw")
     lines = []
